@@ -286,7 +286,7 @@ impl<'a> IrEmitter<'a> {
             }
             IrExprKind::Format { parts } => {
                 for part in parts {
-                    if let super::super::expr::FormatPart::Expr(e) = part {
+                    if let super::super::expr::FormatPart::Expr(e) | super::super::expr::FormatPart::DebugExpr(e) = part {
                         self.scan_expr_for_param_writes(e, param_names, mutated);
                     }
                 }
